@@ -54,9 +54,24 @@ def address_taint_hook(node, v, rec):
 
 
 # ---------------------------------------------------------------- C02: plain-data type walk of every node result
+class KeepSet(set):
+    """ids of containers already walked, holding on to the containers themselves."""
+    def __init__(self):
+        super().__init__()
+        self.keep = []
+
+
 def make_c02_value_hook(allowed_callable):
+    # containers found plain earlier in the same evaluation are not walked again (what is added to them later is itself a
+    # node result and is walked when it is produced): without this a reduce over 300 elements re-walks its growing
+    # accumulator after every node - quadratic
+    seen = KeepSet()
+
     def hook(node, v, rec):
-        bad = canon.type_walk(v, allowed_callable)
+        if len(seen) > 300000:
+            seen.clear()
+            del seen.keep[:]
+        bad = canon.type_walk(v, allowed_callable, _seen=seen)
         if bad:
             site = type(node).__name__
             nm = getattr(node, 'name', None) or getattr(node, 'op', None)
